@@ -402,11 +402,13 @@ func checkPlanShape(plan []*ltx.FileInfo) string {
 // auditPlans evaluates litestream.CalcRestorePlan (real code) on the current
 // listing against the brute-force reachability model (C08).
 func (e *Env) auditPlans(maxTargets int) *Violation {
-	files := e.listing()
+	return e.auditPlansOn(file.NewReplicaClient(e.RepDir), e.listing(), maxTargets)
+}
+
+func (e *Env) auditPlansOn(client litestream.ReplicaClient, files []pfile, maxTargets int) *Violation {
 	if len(files) == 0 {
 		return nil
 	}
-	client := file.NewReplicaClient(e.RepDir)
 	ctx := context.Background()
 	logger := slog.Default()
 	all := func(pfile) bool { return true }
